@@ -590,6 +590,31 @@ func check(prop, tier string) int {
 		}
 	}
 
+	// ---- C15: the separate free-running -race pass (sampling; a cross-check the technique requires, not the deciding step)
+	raceNote := ""
+	if spec.Race {
+		rbin, _ := buildWorker(prop, "plain", true)
+		cmd := exec.Command(rbin, "-racepass")
+		cmd.Env = append(os.Environ(), "GORACE=halt_on_error=0")
+		out, err := cmd.CombinedOutput()
+		nraces := strings.Count(string(out), "WARNING: DATA RACE")
+		nmis := strings.Count(string(out), "RACEPASS-MISMATCH")
+		raceNote = fmt.Sprintf("free-running -race pass: %d data race reports, %d result mismatches (%v)", nraces, nmis, err)
+		if m := regexp.MustCompile(`RACEPASS calls=(\d+)`).FindStringSubmatch(string(out)); m != nil {
+			raceNote += ", " + m[0]
+		} else if nraces == 0 {
+			harnessErrors = append(harnessErrors, "race pass did not complete: "+tail(string(out), 800))
+		}
+		if nraces > 0 || nmis > 0 {
+			v := Violation{Prop: prop, Class: "C15:free-running-race-pass", Pass: "race-pass", Input: json.RawMessage(`{"e":[]}`), Tier: tier,
+				Detail: raceNote + "\n" + tail(string(out), 3000)}
+			viols = append(viols, v)
+			total.Violations++
+			addMap(&total.ViolClass, map[string]int64{v.Class: 1})
+		}
+		fmt.Println("NOTE:", raceNote)
+	}
+
 	// ---- verdict
 	exit := 0
 	sort.Slice(viols, func(i, j int) bool { return len(viols[i].Input) < len(viols[j].Input) })
@@ -673,6 +698,9 @@ func check(prop, tier string) int {
 		"workers":                       nw,
 		"build_mode":                    spec.Mode,
 		"replays":                       replayPaths,
+	}
+	if raceNote != "" {
+		cov["race_pass"] = raceNote
 	}
 	if len(total.Samples) == 0 {
 		cov["samples"] = []any{"(no sample recorded)"}
